@@ -47,7 +47,7 @@ for hs, tiers, to in [(8, ("quick", "thorough"), 240), (12, ("quick", "thorough"
 # payload-side pieces decided elsewhere that belong to "decode as specified"
 OBLIGATIONS += reuse("C15", r"delta_reinit|delta_roundtrip|delta_reference")    # delta decoder state does not leak between Blocks
 OBLIGATIONS += reuse("C04", r"dict_repeat_safety|dict_wrap_step|dict_put_get_step|lzma_decoder_reset|microlzma_wrapper")   # LZ dictionary primitives, state reset, MicroLZMA wrapper
-OBLIGATIONS += reuse("C05", r"block_body_rules|index_hash_exact")   # Block body and Index accepted exactly when valid
+OBLIGATIONS += reuse("C05", r"block_body_rules|index_hash_exact_(1call|sliced)")   # Block body and Index accepted exactly when valid
 # LZMA2 chunk layer under the real LZ decoder driver, vs the chunk grammar (also serves C04/C05/C06)
 L2_UNITS = [S + "common/common.c", S + "lzma/lzma_decoder.c"]
 OBLIGATIONS.append(Obligation(
@@ -81,3 +81,53 @@ OBLIGATIONS.append(Obligation(
     bounds_q="all inputs of <= 8 bytes; one symbolic input/output cut point + a final call with everything; 16-byte dictionary (no wrap: see dict_wrap_step)",
     bounds_t="all inputs of <= 10 bytes; one symbolic cut point + final call",
     outside="the LZMA1 payload decoder itself (lzma_decode: symbolic execution does not finish, see DESIGN.md); chunk streams longer than the bound; more than two calls"))
+# Index decoder (index_decoder.c) vs a one-pass parser of the Index field (also C04/C05/C06/C09)
+ID_UNITS = [S + "common/common.c", S + "common/vli_decoder.c"]
+ID_HDEFS = ["lzma_index_init=vstub_index_init", "lzma_index_end=vstub_index_end", "lzma_index_append=vstub_index_append",
+            "lzma_index_prealloc=vstub_index_prealloc", "lzma_index_padding_size=vstub_index_padding_size",
+            "lzma_index_memusage=vstub_index_memusage"]
+ID_STUBS = ["lzma_index container (index.c, decided in C13): recorder with the same interface (init may fail, append may fail with MEM_ERROR, memusage = monotone model 1000+16*blocks)",
+            "lzma_crc32: coverage tracker (value = number of bytes fed if fed contiguously from the first byte; poisoned otherwise)"]
+OBLIGATIONS += [
+    Obligation(name="index_decoder_vs_spec", src="idxdec.c", func="harness_index_decoder", units=ID_UNITS, hdefs=ID_HDEFS,
+        defs=["lzma_crc32=vstub_crc32"], qdefs=["NIN=10", "CALLS=0"], tdefs=["NIN=12", "CALLS=0"], qunwind=12, tunwind=14,
+        unwindset=[("lzma_vli_decode", "", 10), ("ovli", "", 10), ("index_decode", "^1", 5)], timeout_q=600, timeout_t=3000, mem_gb=12,
+        fp_restrict=["harness_index_decoder.function_pointer_call.1/index_decoder_end", "harness_index_decoder.function_pointer_call.2/index_decode",
+                     "harness_index_decoder.function_pointer_call.3/index_decoder_memconfig", "harness_index_decoder.function_pointer_call.4/index_decoder_end"],
+        functions=["lzma_index_decoder_init", "index_decoder_reset", "index_decode", "index_decoder_end", "index_decoder_memconfig", "lzma_vli_decode"],
+        stubs=ID_STUBS,
+        desc="Index decoder as a coder (init, index_decode sliced, memconfig, end): for EVERY byte string and memory limit the "
+             "status is OK(incomplete) / STREAM_END / DATA_ERROR / MEMLIMIT_ERROR exactly as an independent one-pass parser of "
+             "the Index field says (indicator, minimal VLIs, Unpadded Size range, zero padding, CRC32 over exactly the bytes "
+             "before it, memory gate right after the count); input consumed independent of slicing; the Records appended are "
+             "the decoded VLIs in order; *i is NULL until the verified Index is published; lzma_end frees an unfinished index "
+             "exactly once and never a published one; allocation failures -> MEM_ERROR with nothing published",
+        bounds_q="all byte strings of <= 10 bytes (up to 2 Records of 1-byte VLIs or 1 Record of longer ones), all 64-bit memory limits, one call",
+        bounds_t="all byte strings of <= 12 bytes (two Records), one call",
+        outside="the lzma_index container behind the recorder (C13); Indexes beyond the bound"),
+    Obligation(name="index_decoder_sliced", tiers=("thorough",), src="idxdec.c", func="harness_index_decoder", units=ID_UNITS, hdefs=ID_HDEFS,
+        defs=["lzma_crc32=vstub_crc32", "NIN=10", "CALLS=1"], unwind=12,
+        unwindset=[("lzma_vli_decode", "", 10), ("ovli", "", 10), ("index_decode", "^1", 5)], timeout_q=600, timeout_t=3000, mem_gb=12,
+        fp_restrict=["harness_index_decoder.function_pointer_call.1/index_decoder_end", "harness_index_decoder.function_pointer_call.2/index_decode",
+                     "harness_index_decoder.function_pointer_call.3/index_decoder_memconfig", "harness_index_decoder.function_pointer_call.4/index_decoder_end"],
+        functions=["lzma_index_decoder_init", "index_decoder_reset", "index_decode", "index_decoder_end", "index_decoder_memconfig", "lzma_vli_decode"],
+        stubs=ID_STUBS,
+        desc="Index decoder as a coder (init, index_decode sliced, memconfig, end): for EVERY byte string and memory limit the "
+             "status is OK(incomplete) / STREAM_END / DATA_ERROR / MEMLIMIT_ERROR exactly as an independent one-pass parser of "
+             "the Index field says (indicator, minimal VLIs, Unpadded Size range, zero padding, CRC32 over exactly the bytes "
+             "before it, memory gate right after the count); input consumed independent of slicing; the Records appended are "
+             "the decoded VLIs in order; *i is NULL until the verified Index is published; lzma_end frees an unfinished index "
+             "exactly once and never a published one; allocation failures -> MEM_ERROR with nothing published",
+        bounds_q="all byte strings of <= 10 bytes, cut at an arbitrary point into two calls (measured: no verdict within 1300 s on this machine; reported as INCONCLUSIVE when it does not finish)",
+        bounds_t="same strings, cut at an arbitrary point into two calls (measured: > 1300 s; reported as inconclusive if it does not finish)",
+        outside="the lzma_index container behind the recorder (C13); Indexes beyond the bound"),
+    Obligation(name="index_buffer_decode_vs_spec", src="idxdec.c", func="harness_index_buffer_decode", units=ID_UNITS, hdefs=ID_HDEFS,
+        defs=["lzma_crc32=vstub_crc32"], qdefs=["NIN=10"], tdefs=["NIN=16"], qunwind=12, tunwind=18,
+        unwindset=[("lzma_vli_decode", "", 10), ("ovli", "", 10), ("index_decode", "^1", 5)], timeout_q=600, timeout_t=3000, mem_gb=12,
+        functions=["lzma_index_buffer_decode", "index_decoder_reset", "index_decode", "lzma_vli_decode"], stubs=ID_STUBS,
+        desc="lzma_index_buffer_decode (single call): LZMA_OK exactly for a complete valid Index field (position after the CRC32, "
+             "Records as decoded); otherwise *i == NULL, the partial index freed, *in_pos unchanged, truncated input -> DATA_ERROR, "
+             "MEMLIMIT_ERROR sets *memlimit to the amount needed",
+        bounds_q="all byte strings of <= 10 bytes, all memory limits", bounds_t="<= 16 bytes",
+        outside="the lzma_index container behind the recorder (C13)"),
+]
